@@ -58,7 +58,9 @@ def tlc(module, cfg, cwd=SPEC, workers=1, env=None, extra=(), timeout=3600, heap
     if simulate: cmd += ["-simulate", simulate]
     cmd += list(extra) + [module]
     e = dict(os.environ)
-    if heap: e["JAVA_TOOL_OPTIONS"] = heap
+    # a large thread stack: the rule-granularity specifications recurse deeply (Ensure/RunRule), and with the default
+    # stack a StackOverflowError appeared in about one run of three, depending on what the JIT had compiled
+    e["JAVA_TOOL_OPTIONS"] = ((heap or "") + " -Xss64m").strip()
     if env: e.update(env)
     try:
         r = subprocess.run(cmd, cwd=cwd, env=e, capture_output=True, text=True, timeout=timeout)
